@@ -54,6 +54,7 @@ MOD = {
                 "sdes_item_owned_eq", "unknown_setters", "fb_setters", "rpsi_setters", "nack_add_idempotent",
                 "nack_add_comm", "nack_add_mem", "fir_add_last_wins", "fir_add_comm", "fir_image_perm",
                 "packet_builder_forwards", "compound_singleton"],
+    "Fast": ["fast_nack_eq", "fast_fir_eq", "fast_sli_eq", "fast_compound_eq"],
     "EndToEnd": ["fb_nack_end_to_end", "fb_fir_end_to_end", "fb_sli_end_to_end", "fb_rpsi_end_to_end", "fb_pli_end_to_end",
                  "fci_err_truthful", "parseFci_err_truthful", "packet_err_truthful", "packet_pad_transparent",
                  "compound_iter_offsets", "sdes_sizes_bounded"],
@@ -69,7 +70,7 @@ RULES = ["rb_rules", "sr_rules", "rr_rules", "bye_rules", "app_rules", "item_rul
 OBLIGATIONS = {
     "C01": MOD["Total"] + ["checkPacket_no_panic", "parsers_no_panic", "sdes_parse_no_panic", "fci_parsers_no_panic",
                            "compound_parse_no_panic", "compound_iter", "compound_fused", "item_accessors", "chunk_length",
-                           "nack_entries_eq", "fir_entries_eq", "sli_entries_eq", "tiling_length_le", "sdes_sizes_bounded"],
+                           "nack_entries_eq", "fir_entries_eq", "sli_entries_eq", "tiling_length_le", "sdes_sizes_bounded"] + ["fast_nack_eq", "fast_fir_eq", "fast_sli_eq", "fast_compound_eq"],
     "C02": ["rb_roundtrip", "sr_roundtrip", "rr_roundtrip", "rb_refines", "sr_refines", "rr_refines", "written_eq_image",
             "writeInto_ok", "rb_rules", "sr_rules", "rr_rules"],
     "C03": ["sdes_roundtrip", "refTok_encode", "item_refines", "chunk_refines", "sdes_refines", "written_eq_image",
@@ -97,13 +98,14 @@ OBLIGATIONS = {
             "chunk_length", "refTok_encode", "chunkImage_length", "sdes_roundtrip", "ref_rejects_item_overrun",
             "ref_rejects_priv_overrun", "ref_rejects_nonzero_fill"],
     "C11": ["compound_parse_ok_iff", "compound_parse_no_panic", "tiling_sound", "compound_iter", "compound_fused",
-            "tiling_length_le", "compound_iterator_total", "compound_iter_offsets"],
+            "tiling_length_le", "compound_iterator_total", "compound_iter_offsets", "fast_compound_eq"],
     "C12": ["packet_parse_eq", "packet_parse_short", "packet_unknown_data", "packet_data", "tryAs_same",
             "tryAs_mismatch", "tryAs_unknown", "packet_kind"],
     "C13": MOD["Padding"] + ["packet_pad_transparent"],
     "C14": ["compound_refines", "compound_size_sum", "compound_accept_iff", "compound_singleton"] + MOD["Compose"],
     "C15": ["parseFci_eq", "nack_entries_eq", "fir_entries_eq", "sli_entries_eq", "rpsi_decode_eq", "rpsi_parse_ok_iff",
-            "pli_parse_ok_iff", "fir_parse_ok_iff", "sli_parse_ok_iff", "nack_parse_ok", "fci_parsers_no_panic"],
+            "pli_parse_ok_iff", "fir_parse_ok_iff", "sli_parse_ok_iff", "nack_parse_ok", "fci_parsers_no_panic",
+            "fast_nack_eq", "fast_fir_eq", "fast_sli_eq"],
     "C16": RULES + ["compound_accept_iff", "sizes_bounded", "checkPadding_ok_iff"],
     "C17": REFINES + ["prefill_independent", "tail_untouched", "failed_write_untouched", "writeInto_err",
                       "writeInto_short"],
@@ -157,12 +159,15 @@ def parse_fci(r, tier):
     return reqs
 
 
+MANY_TILES = False     # enabled once the driver's Compound.parse is linear (Fast.compoundParse)
+
+
 def parse_compound(r, tier):
     """compound requests, each followed by `(parse packet tile)` for its tiles (the oracle of C11
     compares each yielded item with the generic parser run on the tile alone)"""
     import oracles
     out = []
-    for q, m in [x for x in streams.length_patterns(r) if x[1]["kind"] == "compound"] + streams.compound_stream(r, tier):
+    for q, m in [x for x in streams.length_patterns(r) if x[1]["kind"] == "compound"] + (streams.many_tiles(r) if MANY_TILES else []) + streams.compound_stream(r, tier):
         ts = oracles.ref_tiling(m["bytes"])
         idx = len(out)
         out.append((q, m))
@@ -214,7 +219,7 @@ def big_light(r):
     """the inputs beyond 64 KiB minus the three on which the model's iterators are quadratic
     (a 64 KiB NACK list, directly and inside a transport feedback packet, and a 64 KiB SDES): those
     run in C01 and C15 only"""
-    return [(q, m) for q, m in streams.big_inputs(r) if not (m["kind"] in ("tfb", "nack", "sdes") and len(m["bytes"]) > 60000)]
+    return [(q, m) for q, m in streams.big_inputs(r) if not (m["kind"] in ("sdes",) and len(m["bytes"]) > 60000)]
 
 
 def pad_big(r):
@@ -372,6 +377,13 @@ def size_n(t):
 
 
 def project(pid, t, meta):
+    out = project_(pid, t, meta)
+    if meta.get("op") == "parse" and "shift_same" in t and pid in ("C01", "C08", "C09", "C10", "C11", "C12", "C15", "C18", "C19"):
+        out["shift_same"] = t["shift_same"]
+    return out
+
+
+def project_(pid, t, meta):
     op = meta.get("op")
     out = {}
     if pid == "C01":
